@@ -4,7 +4,7 @@
    Constant, no other Extract Inductive. *)
 Require Extraction.
 Require Import ExtrOcamlBasic.
-From FV Require Import Base.Serial Session.Window Link.SenderCredit Base.Bytes Codec.Value Codec.Enc Codec.Dec Codec.Spec Frame.Transfer Lib.LengthDelimited Session.Disposition Lib.Slab Session.Ids Conn.Lifecycle Conn.Timers Link.Receiver Session.SessLife Auth.SaslListener Frame.SessionSplit.
+From FV Require Import Base.Serial Session.Window Link.SenderCredit Base.Bytes Codec.Value Codec.Enc Codec.Dec Codec.Spec Frame.Transfer Lib.LengthDelimited Session.Disposition Lib.Slab Session.Ids Conn.Lifecycle Conn.Timers Link.Receiver Session.SessLife Auth.SaslListener Frame.SessionSplit Link.LinkLife.
 Extraction Language OCaml.
 Separate Extraction
   Window.run Window.step Window.begun_for_oracle
@@ -18,4 +18,5 @@ Separate Extraction
   Receiver.rstep Receiver.rinit
   SessLife.sstep
   SaslListener.lstep
-  SessionSplit.session_split.
+  SessionSplit.session_split
+  LinkLife.lkstep.
